@@ -798,6 +798,85 @@ func genCodecSrc(repo string) (string, error) {
 		sw["bolt_gate_first"] = !(gate["bolt"] == 0 && gate["boltv2"] == 0)
 	}
 
+	// ownership of the pooled frame copies: (1) nothing on a decode path gives a buffer back to the pools (decoder.go and the
+	// Decode method of every codec contain no PutIoBuffer / PutBytes call) - the copy belongs to the stream's buffer context
+	// from the take on; (2) the buffer contexts of bolt and boltv2 put request.Data and response.Data once each, nil-guarded,
+	// and clear the record
+	{
+		keeps := true
+		for _, pk := range []string{"bolt", "boltv2", "dubbo", "dubbothrift", "tars"} {
+			for _, file := range []string{"decoder.go", "protocol.go"} {
+				fset, f, err := ParseGoFile(repo, "pkg/protocol/xprotocol/"+pk+"/"+file)
+				if err != nil {
+					return "", err
+				}
+				for _, d := range f.Decls {
+					fd, isFn := d.(*ast.FuncDecl)
+					if !isFn || fd.Body == nil || (file == "protocol.go" && fd.Name.Name != "Decode") {
+						continue
+					}
+					ast.Inspect(fd.Body, func(nd ast.Node) bool {
+						if ce, isCall := nd.(*ast.CallExpr); isCall {
+							if c := src(fset, ce.Fun); c == "buffer.PutIoBuffer" || c == "buffer.PutBytes" || strings.HasSuffix(c, ".PutIoBuffer") || strings.HasSuffix(c, ".Free") {
+								keeps = false
+							}
+						}
+						return true
+					})
+				}
+			}
+		}
+		sw["decode_keeps_frame_copy"] = keeps
+		once := true
+		for _, pk := range []string{"bolt", "boltv2"} {
+			fset, f, err := ParseGoFile(repo, "pkg/protocol/xprotocol/"+pk+"/buffer.go")
+			if err != nil {
+				return "", err
+			}
+			fd := FindFunc(f, pk+"BufferCtx", "Reset")
+			if fd == nil {
+				unknown(pk+" buffer.go", "no Reset")
+				once = false
+				continue
+			}
+			puts := map[string]int{}
+			ast.Inspect(fd.Body, func(nd ast.Node) bool {
+				is, isIf := nd.(*ast.IfStmt)
+				if !isIf {
+					return true
+				}
+				c := src(fset, is.Cond)
+				for _, what := range []string{"buf.request.Data", "buf.response.Data"} {
+					if c == what+" != nil" {
+						ast.Inspect(is.Body, func(n2 ast.Node) bool {
+							if ce, isCall := n2.(*ast.CallExpr); isCall && src(fset, ce.Fun) == "buffer.PutIoBuffer" && len(ce.Args) == 1 && src(fset, ce.Args[0]) == what {
+								puts[what]++
+							}
+							return true
+						})
+					}
+				}
+				return true
+			})
+			total := 0
+			ast.Inspect(fd.Body, func(nd ast.Node) bool {
+				if ce, isCall := nd.(*ast.CallExpr); isCall && src(fset, ce.Fun) == "buffer.PutIoBuffer" {
+					total++
+				}
+				return true
+			})
+			last := ""
+			if n := len(fd.Body.List); n > 0 {
+				last = src(fset, fd.Body.List[n-1])
+			}
+			if puts["buf.request.Data"] != 1 || puts["buf.response.Data"] != 1 || total != 2 || last != "*buf = "+pk+"Buffer{}" {
+				once = false
+				unknown(pk+" buffer.go Reset", fmt.Sprintf("puts=%v total=%d last=%s", puts, total, last))
+			}
+		}
+		sw["ctx_reset_puts_once"] = once
+	}
+
 	names := make([]string, 0, len(sw))
 	for k := range sw {
 		names = append(names, k)
